@@ -203,9 +203,15 @@ def run_histories(tag, cases, variant="fixed"):
     """-> list of (case, impl_obs, impl_string, model_outcomes) ; raises RuntimeError on infrastructure failure"""
     d = scratch(tag)
     write_jsonl(os.path.join(d, "cases.jsonl"), cases)
-    rc, obs, out = run_harness("h_job", ["run", os.path.join(d, "cases.jsonl")], timeout=1800)
-    if rc != 0 or len(obs) != len(cases):
-        raise RuntimeError(f"h_job failed rc={rc}: {out[-800:]}")
+    obs = []
+    while len(obs) < len(cases):
+        rc, part, out = run_harness("h_job", ["run", os.path.join(d, "cases.jsonl"), str(len(obs))], timeout=1800)
+        if rc != 0 or not part or (len(obs) + len(part) < len(cases) and not part[-1].get("hung")):
+            raise RuntimeError(f"h_job failed rc={rc}: {out[-800:]}")
+        obs += part          # a hung history ends the process; resume after it
+        if sum(1 for o in obs if o.get("hung")) >= 6:
+            cases = cases[:len(obs)]       # enough failing inputs: the remaining histories are not run
+            break
     terms = [history_term(c, variant) for c in cases]
     res, err = coq_eval(tag, ["Gen.Signals_gen", "Codec.Signals", "Job.JobModel", "Run.EvalJob"], terms, timeout=1500)
     if err:
@@ -216,6 +222,8 @@ def run_histories(tag, cases, variant="fixed"):
             outl.append((case, o, "MODEL-TIMEOUT", None))
         elif o.get("harness_panic"):
             outl.append((case, o, "HARNESS-PANIC", model_set(m)))
+        elif o.get("hung"):
+            outl.append((case, o, "HUNG", model_set(m)))
         else:
             outl.append((case, o, strip_drop(impl_string(o, 0, case)).strip(), model_set(m)))
     return outl
@@ -332,6 +340,13 @@ def job_check(P, tier, seed, monitor, extra_cases=None):
         c.count("ops=%d" % min(len(names), 9))
         if o.get("harness_panic"):
             c.errors.append("harness panicked on " + json.dumps(case)[:300])
+            continue
+        if o.get("hung"):
+            # the model proves that every history settles (Job/JobDrain.v): a job task that keeps the runtime busy for 10 s of real time
+            # without the (paused) clock advancing is a livelock
+            c.disagreements.append({"case": case, "impl": "no progress", "model": ms[:4], "what": "job task trace not among the model's outcomes"})
+            c.failing.append({"case": case, "impl": "no progress for 10 s of real time with the clock paused",
+                              "clause": f"{P.pid}: the job task spins without making progress (livelock): queued controls are never executed"})
             continue
         if case.get("monitor_only"):
             c.count("monitor-only(" + case["monitor_only"] + ")")
